@@ -49,7 +49,7 @@ def match_known(res, known):
 
 
 def vkey(res):
-    return (res.get("prop"), res.get("monitor"), res.get("site"), res.get("fault"))
+    return (res.get("prop"), res.get("monitor"), res.get("site"), res.get("fault") is None)
 
 
 def minimise(pool_req, mod, prop, doc, res, max_runs=120):
@@ -173,11 +173,20 @@ def check(prop, tier, verif_seed, max_runs=None, budget=None, nworkers=None, wri
         lines = []
         reported = []
         for key, lst in sorted(groups.items(), key=lambda kv: str(kv[0])):
-            d, r = lst[0]
-            kf = match_known(r, known)
-            if kf is not None:
-                lines.append(f"KNOWN-FINDING: property={prop} {kf['what']} (seen in {len(lst)} runs)")
+            seen_known = {}
+            rest = []
+            for d, r in lst:
+                kf = match_known(r, known)
+                if kf is not None:
+                    seen_known[kf["what"]] = seen_known.get(kf["what"], 0) + 1
+                else:
+                    rest.append((d, r))
+            for what, n in seen_known.items():
+                lines.append(f"KNOWN-FINDING: property={prop} {what} (seen in {n} runs)")
+            if not rest:
                 continue
+            lst = rest
+            d, r = lst[0]
             md, mr, nshrink = minimise(lambda reqs: pool.map(reqs), mod, prop, d, r)
             path = write_replay(prop, md, mr, minimised_from=d if md is not d else None, shrink_runs=nshrink)
             conf = runner.run_fresh({"prop": prop, "doc": md, "wall_cap": 300}, scratch=scratch)
